@@ -37,6 +37,8 @@ def _globals(cfg):
     g.update(stubs.interp_globals())
     g.update(stubs.kdtree_globals())
     g[("verde.blockreduce", "block_split")] = stubs.BlockSplitContract()
+    g[("verde.model_selection", "block_split")] = stubs.BlockSplitContract()
+    g.update(stubs.delaunay_globals())
     g.update(stubs.scoring_globals())
     g[("verde.coordinates", "check_random_state")] = stubs.stub_check_random_state
     return g
@@ -95,6 +97,20 @@ def _purity_cases(ctx):
         "least_squares(copy_jacobian=True)": W(lambda a: __import__("sys").modules["verde.base.least_squares"].least_squares(a["jac"], a["d"], a["w"], damping=0.1, copy_jacobian=True)),
         "scatter_points": W(lambda a: vd.scatter_points(region, 3, random_state=1)),
         "profile_coordinates": W(lambda a: vd.profile_coordinates((0.0, 1.0), (2.0, 3.0), 3)),
+        # regions handed over as (read-only) arrays
+        "longitude_continuity(region array)": W(lambda a: vd.longitude_continuity((a["e"], a["n"]), a["reg"])),
+        "pad_region(region array)": W(lambda a: vd.pad_region(a["reg"], 0.5)),
+        "inside(region array)": W(lambda a: vd.inside((a["e"], a["n"]), a["reg"])),
+        "grid_coordinates(region array)": W(lambda a: vd.grid_coordinates(a["reg"], shape=(2, 3), extra_coords=[1.0, 2.0])),
+        "variance_to_weights(zero variance)": W(lambda a: vd.variance_to_weights(a["var0"])),
+        "convexhull_mask": W(lambda a: vd.convexhull_mask((a["e"], a["n"]), coordinates=(a["qe"], a["qn"]))),
+        "distance_mask(grid)": W(lambda a: vd.distance_mask((a["e"], a["n"]), 0.75, grid=vd.make_xarray_grid((a["ge"], a["gn"]), a["g"], "scalars"))),
+        "BlockKFold.split": W(lambda a: [(list(tr), list(te)) for tr, te in vd.BlockKFold(shape=(1, 2), n_splits=2).split(a["X"])]),
+        "BlockShuffleSplit.split": W(lambda a: [(list(tr), list(te)) for tr, te in vd.BlockShuffleSplit(shape=(1, 2), n_splits=2, test_size=0.5, random_state=3).split(a["X"])]),
+        "score": W(lambda a: fitted(UFGridder(ident=6), a).score((a["e"], a["n"]), a["d"], a["w"])),
+        "scatter/profile": W(lambda a: (fitted(UFGridder(ident=7), a).scatter(region=region, size=3, random_state=2), fitted(UFGridder(ident=7), a).profile((0.0, 0.0), (1.0, 2.0), 3))),
+        "jacobians": W(lambda a: (vd.Spline().jacobian((a["qe"], a["qn"]), (a["e"], a["n"])), vd.Trend(2).jacobian((a["e"], a["n"])), vd.VectorSpline2D(mindist=1.0).jacobian((a["qe"], a["qn"]), (a["e"], a["n"])))),
+        "Cubic.fit/predict": W(lambda a: vd.Cubic().fit((a["e"], a["n"]), a["d"]).predict((a["qe"], a["qn"]))),
     }
     return cases, e4, n4
 
@@ -117,7 +133,14 @@ def h_purity(ctx):
         "gn": np.array([-1.0, 0.5]),
         "g": ctx.reals("g", (2, 3)),
         "jac": ctx.reals("j", (4, 2)),
+        "reg": np.array([-1.0, 3.0, -1.0, 3.0]),
+        "var0": np.array([0.0, 1.0, 4.0, 0.0]),
+        "X": np.transpose((e4, n4)).copy(),
     }
+    stubs.StubDelaunay.mode = "geometry"
+    if name == "score":
+        # R2 is undefined for constant data (zero denominator)
+        ctx.assume(Or([Not(eq(arrays["d"][0], v)) for v in arrays["d"][1:]]))
     for v in arrays["w"]:
         ctx.assume(v > 0)
     before = {k: [x for x in a.ravel()] for k, a in arrays.items()}
@@ -339,12 +362,19 @@ def h_not_fitted(ctx):
             ctx.claim("%s: predicting before fitting is an error" % name, False)
         except NotFittedError:
             ctx.claim("%s: predicting before fitting is an error" % name, True)
-        for meth in ("grid",):
+        vec = name in ("VectorSpline2D", "Vector")
+        dq = (np.array([1.0, 2.0]),) * 2 if vec else np.array([1.0, 2.0])
+        for meth, call in (
+            ("gridding", lambda: est.grid(region=(0, 1, 0, 1), shape=(2, 2))),
+            ("scattering", lambda: est.scatter(region=(0, 1, 0, 1), size=3, random_state=0)),
+            ("profiling", lambda: est.profile((0, 0), (1, 1), 3)),
+            ("scoring", lambda: est.score(q, dq)),
+        ):
             try:
-                est.grid(region=(0, 1, 0, 1), shape=(2, 2))
-                ctx.claim("%s: gridding before fitting is an error" % name, False)
+                call()
+                ctx.claim("%s: %s before fitting is an error" % (name, meth), False)
             except NotFittedError:
-                ctx.claim("%s: gridding before fitting is an error" % name, True)
+                ctx.claim("%s: %s before fitting is an error" % (name, meth), True)
 
 
 # --------------------------------------------------------------------------- rejection with symbolic shapes
@@ -460,6 +490,61 @@ def h_reject_misc(ctx):
         ctx.claim("invalid regions (W > E or S > N) are rejected", Or(gt(w, ee), gt(s, n)))
 
 
+def h_reject_entry_points(ctx):
+    """one inconsistency between otherwise valid arguments, handed to each public entry point (not to the checking
+    helpers): every one of them must raise ValueError instead of fitting, splitting or gridding something"""
+    e = np.array([0.0, 1.0, 2.0])
+    n = np.array([2.0, 0.5, 1.0])
+    d3 = ctx.reals("d", 3)
+    d4 = ctx.reals("dd", 4)
+    X = np.transpose((e, n))
+    fitted = vd.Trend(1).fit((e, n), d3)
+    cases = (
+        ("KNeighbors.fit: data longer than the coordinates", lambda: vd.KNeighbors().fit((e, n), d4)),
+        ("Trend.fit: data longer than the coordinates", lambda: vd.Trend(1).fit((e, n), d4)),
+        ("Spline.fit: data longer than the coordinates", lambda: vd.Spline().fit((e, n), d4)),
+        ("Spline.fit: weights longer than the data", lambda: vd.Spline().fit((e, n), d3, weights=d4)),
+        ("Spline.fit: coordinate arrays of different lengths", lambda: vd.Spline().fit((e, d4), d3)),
+        ("Linear.fit: data longer than the coordinates", lambda: vd.Linear().fit((e, n), d4)),
+        ("Cubic.fit: data longer than the coordinates", lambda: vd.Cubic().fit((e, n), d4)),
+        ("Vector.fit: one component longer than the coordinates", lambda: vd.Vector([vd.Trend(1), vd.Trend(1)]).fit((e, n), (d3, d4))),
+        ("VectorSpline2D.fit: one component longer than the coordinates", lambda: vd.VectorSpline2D().fit((e, n), (d3, d4))),
+        ("Chain.fit: data longer than the coordinates", lambda: vd.Chain([("t", vd.Trend(1))]).fit((e, n), d4)),
+        ("BlockMean.filter: data longer than the coordinates", lambda: vd.BlockMean(shape=(1, 1)).filter((e, n), d4)),
+        ("BlockReduce.filter: weights longer than the data", lambda: vd.BlockReduce(_mean(ctx), shape=(1, 1)).filter((e, n), d3, weights=d4)),
+        ("train_test_split: data longer than the coordinates", lambda: vd.train_test_split((e, n), d4)),
+        ("cross_val_score: data longer than the coordinates", lambda: vd.cross_val_score(vd.Trend(1), (e, n), d4)),
+        ("score: data longer than the coordinates", lambda: fitted.score((e, n), d4)),
+        ("line_coordinates with neither size nor spacing", lambda: vd.line_coordinates(0, 1)),
+        ("line_coordinates with both size and spacing", lambda: vd.line_coordinates(0, 1, size=3, spacing=0.5)),
+        ("rolling_window with neither shape nor spacing", lambda: vd.rolling_window((e, n), size=1)),
+        ("rolling_window with both shape and spacing", lambda: vd.rolling_window((e, n), size=1, spacing=1, shape=(2, 2))),
+        ("BlockKFold with neither shape nor spacing", lambda: vd.BlockKFold()),
+        ("BlockKFold with both shape and spacing (at the latest when splitting)", lambda: list(vd.BlockKFold(shape=(2, 2), spacing=1, n_splits=2).split(X))),
+        ("BlockShuffleSplit with neither shape nor spacing", lambda: vd.BlockShuffleSplit()),
+        ("BlockShuffleSplit with both shape and spacing (at the latest when splitting)", lambda: list(vd.BlockShuffleSplit(shape=(2, 2), spacing=1, n_splits=1, test_size=0.5).split(X))),
+        ("BlockReduce with neither shape nor spacing", lambda: vd.BlockReduce(_mean(ctx)).filter((e, n), d3)),
+        ("BlockReduce with both shape and spacing", lambda: vd.BlockReduce(_mean(ctx), shape=(1, 1), spacing=1).filter((e, n), d3)),
+        ("train_test_split with both shape and spacing", lambda: vd.train_test_split((e, n), d3, shape=(1, 2), spacing=1)),
+        ("block_split with neither shape nor spacing", lambda: vd.block_split((e, n))),
+        ("gridder.grid with both shape and spacing", lambda: fitted.grid(shape=(2, 2), spacing=1)),
+        ("scatter_points on a region with W > E", lambda: vd.scatter_points((1, 0, 0, 1), 3, random_state=0)),
+        ("inside on a region with S > N", lambda: vd.inside((e, n), (0, 1, 1, 0))),
+        ("block_split on a region with W > E", lambda: vd.block_split((e, n), shape=(1, 1), region=(1, 0, 0, 1))),
+        ("gridder.grid on a region with S > N", lambda: fitted.grid(region=(0, 1, 1, 0), shape=(2, 2))),
+        ("region with three entries", lambda: vd.grid_coordinates((0, 1, 0), shape=(2, 2))),
+        ("region with five entries", lambda: vd.inside((e, n), (0, 1, 0, 1, 2))),
+    )
+    for bad, f in cases:
+        try:
+            with warnings.catch_warnings():
+                warnings.simplefilter("ignore")
+                f()
+            ctx.claim("rejected: %s" % bad, False)
+        except ValueError:
+            ctx.claim("rejected: %s" % bad, True)
+
+
 def _cfg_purity(tier, seed):
     class _C:
         sym = True
@@ -470,10 +555,10 @@ def _cfg_purity(tier, seed):
 
 
 HARNESSES = [
-    Harness("purity_and_repeatability", h_purity, _cfg_purity, bounds="30 public callables / estimator method sequences on a concrete 4-point layout with symbolic data, weights, grids and Jacobians; every argument array read-only; each call repeated", stubs=["cKDTree / sklearn / scipy interpolators / scorer / RNG -> contract stubs", "block_split (inside block reductions) -> C08 contract"], extra_globals=_globals, engine={"oneshot": True, "keyed_sqrt": True}, outside="functions not listed in functions_encoded", timeout_s=900),
+    Harness("purity_and_repeatability", h_purity, _cfg_purity, bounds="45 public callables / estimator method sequences on a concrete 4-point layout with symbolic data, weights, grids and Jacobians; every argument array read-only; each call repeated", stubs=["cKDTree / sklearn / scipy interpolators / scorer / RNG -> contract stubs", "block_split (inside block reductions) -> C08 contract"], extra_globals=_globals, engine={"oneshot": True, "keyed_sqrt": True}, outside="functions not listed in functions_encoded", timeout_s=900),
     Harness("history_freedom", h_history, lambda tier, seed: [{"kind": k} for k in ("trend", "spline", "vector", "vector_fc", "kneighbors", "linear", "cubic")], bounds="fit on dataset A then on dataset B (different concrete 4-point layouts, symbolic data) versus a fresh estimator fitted on B; clone and get_params round trips", stubs=["sklearn / cKDTree / scipy interpolators -> contract stubs"], extra_globals=_globals, engine={"oneshot": True}),
     Harness("no_aliasing", h_no_aliasing, lambda tier, seed: [{"kind": k, "shape": s} for k, s in (("trend", (4,)), ("spline", (4,)), ("spline", (2, 2)), ("vector", (4,)), ("vector_fc", (2, 2)), ("kneighbors", (4,)), ("kneighbors", (2, 2)), ("linear", (4,)))], bounds="every gridder fitted on a concrete 4-point layout (1-D and 2x2 contiguous arrays) with symbolic data and weights; all ndarray attributes (also inside tuples) of the fitted estimator", stubs=["sklearn / cKDTree / scipy interpolators -> contract stubs"], extra_globals=_globals, engine={"oneshot": True}),
-    Harness("not_fitted", h_not_fitted, {"quick": [{}]}, bounds="9 gridders, symbolic query offset", extra_globals=_globals),
+    Harness("not_fitted", h_not_fitted, {"quick": [{}]}, bounds="9 gridders, symbolic query offset; predict, grid, scatter, profile, score", extra_globals=_globals),
     Harness(
         "reject_fit_input",
         h_reject_fit_input,
@@ -481,5 +566,6 @@ HARNESSES = [
         bounds="coordinates, data (1-2 components) and weights (0-2) of rank 1-2 with every dimension a symbolic integer in 1..3",
         stubs=["arrays reduced to their (symbolic) shape"],
     ),
+    Harness("reject_entry_points", h_reject_entry_points, {"quick": [{}]}, bounds="34 public entry points (estimator fit/score/filter, splitters, cross-validation, coordinate generators, region consumers), each given one inconsistency: a data/weight/coordinate array one element longer, both or neither of shape/size and spacing, a region with W > E, S > N or the wrong number of entries; symbolic data values", extra_globals=_globals),
     Harness("reject_misc", h_reject_misc, lambda tier, seed: [{"rank": 1}, {"rank": 2}], bounds="three coordinate arrays of symbolic shapes (rank 1-2, dims 1..3); component-count, shape/spacing and region errors with symbolic data and regions", extra_globals=_globals),
 ]
